@@ -25,8 +25,8 @@ const NMAX: usize = 5552;
 
 fn variants() -> Vec<(&'static str, u32)> {
     if cfg!(feature = "avx512") {
-        // compile-time selected AVX-512 adler / VPCLMULQDQ fold; run only in the avx512 build
-        vec![("avx512", 0)]
+        // compile-time selected AVX-512 adler (VNNI flavour when built with +avx512vnni) / VPCLMULQDQ fold
+        vec![(if cfg!(target_feature = "avx512vnni") { "avx512vnni+vpclmulqdq" } else { "avx512+vpclmulqdq" }, 0)]
     } else {
         vec![("simd", 0), ("generic", cpu::MASK_AVX2 | cpu::MASK_PCLMULQDQ | cpu::MASK_SSE42)]
     }
